@@ -156,3 +156,80 @@ func verifHeapScript(persist bool) {
 
 func VerifH_C15_step() { verifHeapScript(false) }
 func VerifH_C15_persist() { verifHeapScript(true) }
+
+// C15 history with a write/load cycle in the middle: k inserts, one delete (position forked), one insert, write + load,
+// one more insert on the loaded heap: live ranges disjoint, every live id returns its bytes.
+func VerifH_C15_reload_history() {
+	blockSize := uint64(64)
+	fh := NewWritableFractalHeap(blockSize)
+	sb := &core.Superblock{Version: 2, OffsetSize: 8, LengthSize: 8, Endianness: binary.LittleEndian}
+	var objs []*verifObj
+	ins := func(h *WritableFractalHeap, n int) {
+		d := vrt.Bytes(n)
+		id, err := h.InsertObject(d)
+		vrt.AssertNoErr(err, "heap-insert-fitting-ok")
+		objs = append(objs, &verifObj{id: id, data: append([]byte(nil), d...), live: true})
+	}
+	k := 1 + vrt.Choice(2)
+	for i := 0; i < k; i++ {
+		ins(fh, 2+vrt.Choice(2))
+	}
+	del := objs[vrt.Choice(k)] // first or last allocated
+	vrt.AssertNoErr(fh.DeleteObject(del.id), "heap-delete-ok")
+	del.live = false
+	ins(fh, 3)
+	mem := &verifMem{next: 64}
+	addr, err := fh.WriteToFile(mem, mem, sb)
+	vrt.AssertNoErr(err, "heap-write-ok")
+	back := NewWritableFractalHeap(blockSize)
+	vrt.AssertNoErr(back.LoadFromFile(mem, addr, sb), "heap-load-ok")
+	ins(back, 2+vrt.Choice(2))
+	// disjoint live ranges (offset = id bytes 1..2, little endian)
+	for i := range objs {
+		for j := i + 1; j < len(objs); j++ {
+			a, b := objs[i], objs[j]
+			if a.live && b.live {
+				ao := int(a.id[1]) | int(a.id[2])<<8
+				bo := int(b.id[1]) | int(b.id[2])<<8
+				vrt.Assert(ao+len(a.data) <= bo || bo+len(b.data) <= ao, "heap-live-ranges-disjoint")
+			}
+		}
+	}
+	for _, o := range objs {
+		if o.live {
+			got, err := back.GetObject(o.id)
+			vrt.AssertNoErr(err, "heap-get-live-ok")
+			vrt.Assert(verifBytesEq(got, o.data), "heap-get-returns-stored-bytes")
+		}
+	}
+	vrt.Covered("heap-history-done")
+}
+
+// an insert above the maximum managed object size is rejected and changes nothing (also when it would not fit the block)
+func VerifH_C15_oversize_insert() {
+	vrt.LoopBound(5000)
+	blockSize := uint64(1024)
+	fh := NewWritableFractalHeap(blockSize)
+	d := vrt.Bytes(3)
+	id, err := fh.InsertObject(d)
+	vrt.AssertNoErr(err, "heap-insert-fitting-ok")
+	big := make([]byte, int(fh.Header.MaxManagedObjectSize)+1+vrt.Choice(2))
+	beforeFree, beforeCount, beforeOff, beforeRows := fh.Header.FreeSpace, fh.Header.NumManagedObjects, fh.DirectBlock.FreeOffset, fh.Header.CurrentNumRows
+	_, err = fh.InsertObject(big)
+	vrt.Assert(err != nil, "heap-oversize-insert-rejected")
+	vrt.Assert(fh.Header.FreeSpace == beforeFree && fh.Header.NumManagedObjects == beforeCount && fh.DirectBlock.FreeOffset == beforeOff &&
+		fh.Header.CurrentNumRows == beforeRows && fh.RootIndirectBlock == nil, "heap-failed-insert-changes-nothing")
+	got, err := fh.GetObject(id)
+	vrt.AssertNoErr(err, "heap-get-live-ok")
+	vrt.Assert(verifBytesEq(got, d), "heap-get-returns-stored-bytes")
+	sb := &core.Superblock{Version: 2, OffsetSize: 8, LengthSize: 8, Endianness: binary.LittleEndian}
+	mem := &verifMem{next: 64}
+	addr, err := fh.WriteToFile(mem, mem, sb)
+	vrt.AssertNoErr(err, "heap-write-ok")
+	back := NewWritableFractalHeap(blockSize)
+	vrt.AssertNoErr(back.LoadFromFile(mem, addr, sb), "heap-load-ok")
+	got, err = back.GetObject(id)
+	vrt.AssertNoErr(err, "heap-persist-get-ok")
+	vrt.Assert(verifBytesEq(got, d), "heap-persist-bytes")
+	vrt.Covered("oversize-done")
+}
